@@ -508,3 +508,37 @@ Example C19_example_protobuf_doc :
     (mkPb [7] [] 9 [] [] [mkSI None None 5] (Some (mkFee [] 200000 [] [])) None (bs "evermint_80808-1") 3) = None /\
   length pb_table = 19%nat.
 Proof. vm_compute. repeat split; reflexivity. Qed.
+
+(* ================================================================= 6. repeated members of an Amino-JSON sign document *)
+
+(* The documents of section 4 are association LISTS (JObj of key/value pairs); the injectivity theorem is about documents
+   whose objects do not repeat a key (doc_ok -> keys_ok -> dup_free).  That is exactly what the code guarantees: a
+   document that repeats a member name at any depth is refused before anything is built
+   (ethereum/eip712/duplicate_keys.go; gjson would read the first occurrence, the Amino codec the last). *)
+Theorem C19_render_refuses_repeated_members : forall H j, dup_free j = false -> render_checked H j = None.
+Proof. exact render_checked_refuses_repeated_members. Qed.
+Print Assumptions C19_render_refuses_repeated_members.
+
+Theorem C19_covered_documents_repeat_no_member : forall j, doc_ok j -> dup_free j = true.
+Proof. intros j [K _]. apply keys_ok_dup_free. exact K. Qed.
+Print Assumptions C19_covered_documents_repeat_no_member.
+
+(* the injectivity statement for the rendering as the code does it (refusal first) *)
+Theorem C19_render_checked_injective_json : forall H,
+  (forall x, length (H x) = 32%nat) ->
+  forall j1 j2 r, doc_ok j1 -> doc_ok j2 -> render_checked H j1 = Some r -> render_checked H j2 = Some r ->
+  (exists c1 T1 m1 c2 T2 m2, doc_parts j1 = Some (c1, T1, m1) /\ doc_parts j2 = Some (c2, T2, m2) /\ jsame (JObj m1) (JObj m2))
+  \/ collision H.
+Proof. exact render_checked_injective_json. Qed.
+Print Assumptions C19_render_checked_injective_json.
+
+(* non-vacuity: the example document with a second "memo" / a second "msgs" member is refused, the document itself renders *)
+Example C19_example_repeated_member :
+  match C19_example_doc with
+  | JObj l =>
+      render_checked (fun _ => repeat 0 32) (JObj (l ++ [(bs "memo", JStr (bs "other"))])) = None /\
+      render_checked (fun _ => repeat 0 32) (JObj (l ++ [(bs "msgs", JArr [])])) = None /\
+      render_checked (fun _ => repeat 0 32) (JObj l) <> None
+  | _ => False
+  end.
+Proof. vm_compute. repeat split; try reflexivity. discriminate. Qed.
